@@ -139,6 +139,17 @@ class Interp(object):
             fn = self.repo.find(self.modname, e.id, required=False)
             if fn is not None and isinstance(fn, FuncTypes):
                 return Closure(fn, {})
+            # a module-level name bound once (``_unpack_int16 = Struct("<h").unpack``): its defining expression
+            binds = [st for st in self.mod.tree.body if isinstance(st, ast.Assign) and any(
+                isinstance(t, ast.Name) and t.id == e.id for t in st.targets)]
+            stores = sum(1 for n in ast.walk(self.mod.tree) if isinstance(n, ast.Name) and n.id == e.id
+                         and isinstance(n.ctx, (ast.Store, ast.Del)))
+            if len(binds) == 1 and stores == 1 and getattr(self, "_depth", 0) < 5:
+                self._depth = getattr(self, "_depth", 0) + 1
+                try:
+                    return self.ev(binds[0].value, {})
+                finally:
+                    self._depth -= 1
             raise Undecided("name %s" % e.id)
         if isinstance(e, ast.Lambda):
             return Closure(e, dict(env))
